@@ -220,14 +220,14 @@ def gen_jobs(ctx):
     sizes_big = [255, 256, 257, 8191, 8192, 8193]
     if ctx.quick():
         for k in F.KINDS:
-            for n in rng.sample(sizes_small, 3) + rng.sample(sizes_big, 1):
+            for n in rng.sample(sizes_small, 2) + rng.sample(sizes_big, 1):
                 jobs.append(_one(rng, k, n))
     else:
         for k in F.KINDS:
             for n in sizes_small + sizes_big:
                 for _ in range(2):
                     jobs.append(_one(rng, k, n))
-    for _ in range(300 if ctx.quick() else 2500):
+    for _ in range(240 if ctx.quick() else 2500):
         spec = F.gen_spec(rng, n=rng.choice(sizes_small + ([257, 8193] if rng.random() < 0.1 else [])))
         o = rt.gen_opts(rng, spec)
         o["file_scheme"] = rng.choice(["simple", "simple", "hive", "drill"])
@@ -273,12 +273,14 @@ def run(ctx):
                 "file_scheme simple/hive/drill incl. _metadata/_common_metadata, write_index); every written file -> pqref fmt_validate "
                 "+ fmt_decode; trivial = the write raised (allowed outcome); distinct = distinct (spec, options)")
     jobs = gen_jobs(ctx)
-    with mp.get_context("fork").Pool(min(8, os.cpu_count() or 4), initializer=_init) as pool:
-        results = pool.map(_job, jobs, chunksize=4)
+    results = C.pmap(_job, jobs, init=_init, nproc=min(8, os.cpu_count() or 4), job_timeout=300)
     files = lenient = 0
     decomp = {}
     for (spec, o), res in zip(jobs, results):
         case = {"spec": spec, "opts": o}
+        if "__crashed__" in res:
+            res = {"outcome": "fails", "problems": [("crash", "the writing/validating process died or hung: %s" % res["__crashed__"])],
+                   "files": 0, "lenient": 0}
         ctx.case(case, trivial=(res["outcome"] == "write-raised"))
         ctx.count("outcome", res["outcome"])
         ctx.count("rows", spec["n"])
